@@ -36,14 +36,46 @@ def core_fn_body(src, name):
     return src[j:match_brace(src, j)]
 
 
+def _param_names(src, name):
+    """names of the parameters of plain C function `name`, in order"""
+    for m in re.finditer(r"\b%s\s*\(" % re.escape(name), src):
+        i, depth = m.end() - 1, 0
+        while i < len(src):
+            if src[i] == "(":
+                depth += 1
+            elif src[i] == ")":
+                depth -= 1
+                if depth == 0:
+                    break
+            i += 1
+        j = i + 1
+        while j < len(src) and src[j] in " \t\r\n":
+            j += 1
+        if j < len(src) and src[j] == "{":
+            out = []
+            for piece in src[m.end():i].split(","):
+                mm = re.search(r"([A-Za-z_]\w*)\s*(?:\[[^\]]*\])?\s*$", piece)
+                if mm:
+                    out.append(mm.group(1))
+            return out
+    raise ExtractError("C17: parameter list of %s not found" % name)
+
+
+# The patterns below are anchored on structure, not on the names of locals: a variable is captured where it is first
+# matched (`(?P<v>\w+)`) and must be the same one wherever the pattern refers to it again (`(?P=v)`); parameters are
+# taken from the function's parameter list.  A harmless rename therefore changes nothing here, a change of which
+# variable is tested / assigned does.
 def _range_fn(src, name):
     body = func_body(src, name)
-    m = _need(re.search(r"if\s*\(\s*not_raw\s*<\s*0\s*\)\s*not_raw\s*\+=\s*length\s*(?:\+\s*(\d+))?\s*;", body),
-              "the negative-index adjustment in %s" % name)
-    adj = int(m.group(1) or 0)
-    m = _need(re.search(r"if\s*\(\s*not_raw\s*<\s*0\s*\|\|\s*not_raw\s*(>=|>)\s*length\s*\)\s*janet_panicf", body),
-              "the bounds check in %s" % name)
-    return adj, m.group(1) == ">"
+    params = _param_names(src, name)
+    if len(params) < 3:
+        raise ExtractError("C17: %s no longer has (argv, n, length, …) parameters" % name)
+    length = re.escape(params[2])
+    m = _need(re.search(r"if\s*\(\s*(?P<v>\w+)\s*<\s*0\s*\)\s*(?P=v)\s*\+=\s*" + length + r"\s*(?:\+\s*(?P<adj>\d+))?\s*;"
+                        r"\s*if\s*\(\s*(?P=v)\s*<\s*0\s*\|\|\s*(?P=v)\s*(?P<op>>=|>)\s*" + length + r"\s*\)\s*janet_panicf"
+                        r".*?return\s+(?P=v)\s*;", body, re.S),
+              "the negative-index adjustment followed by the bounds check in %s" % name)
+    return int(m.group("adj") or 0), m.group("op") == ">"
 
 
 def _cstr(lit):
@@ -75,58 +107,76 @@ def extract(tree):
     d["halfAdj"], d["halfUpperIncl"] = _range_fn(capi, "janet_gethalfrange")
     d["argAdj"], d["argUpperIncl"] = _range_fn(capi, "janet_getargindex")
     gs = func_body(capi, "janet_getslice")
-    d["sliceClamp"] = bool(re.search(r"if\s*\(\s*range\.end\s*<\s*range\.start\s*\)\s*range\.end\s*=\s*range\.start\s*;", gs))
-    _need(re.search(r"janet_getstartrange\s*\(\s*argv\s*,\s*argc\s*,\s*1\s*,\s*length\s*\)", gs), "start decode in janet_getslice")
-    _need(re.search(r"janet_getendrange\s*\(\s*argv\s*,\s*argc\s*,\s*2\s*,\s*length\s*\)", gs), "end decode in janet_getslice")
+    d["sliceClamp"] = bool(re.search(r"if\s*\(\s*(?P<r>\w+)\.end\s*<\s*(?P=r)\.start\s*\)\s*(?P=r)\.end\s*=\s*(?P=r)\.start\s*;", gs))
+    gp = _param_names(capi, "janet_getslice")          # (argc, argv)
+    if len(gp) != 2:
+        raise ExtractError("C17: janet_getslice no longer has (argc, argv) parameters")
+    ms = _need(re.search(r"janet_getstartrange\s*\(\s*%s\s*,\s*%s\s*,\s*1\s*,\s*(?P<len>\w+)\s*\)" % (re.escape(gp[1]), re.escape(gp[0])), gs),
+               "start decode in janet_getslice")
+    _need(re.search(r"janet_getendrange\s*\(\s*%s\s*,\s*%s\s*,\s*2\s*,\s*%s\s*\)" % (re.escape(gp[1]), re.escape(gp[0]), re.escape(ms.group("len"))), gs),
+          "end decode in janet_getslice")
     st = func_body(capi, "janet_getstartrange")
     _need(re.search(r"return\s+0\s*;", st), "default 0 in janet_getstartrange")
     en = func_body(capi, "janet_getendrange")
-    _need(re.search(r"return\s+length\s*;", en), "default length in janet_getendrange")
+    ep = _param_names(capi, "janet_getendrange")       # (argv, argc, n, length)
+    if len(ep) != 4:
+        raise ExtractError("C17: janet_getendrange no longer has (argv, argc, n, length) parameters")
+    _need(re.search(r"return\s+%s\s*;" % re.escape(ep[3]), en), "default length in janet_getendrange")
     # trim default set
     ta = func_body(string, "trim_help_args")
-    m = _need(re.search(r'set->bytes\s*=\s*\(const uint8_t \*\)\s*\(\s*"((?:[^"\\]|\\.)*)"\s*\)\s*;\s*set->len\s*=\s*(\d+)\s*;', ta),
+    m = _need(re.search(r'(?P<set>\w+)->bytes\s*=\s*\(\s*const\s+uint8_t\s*\*\s*\)\s*\(\s*"((?:[^"\\]|\\.)*)"\s*\)\s*;\s*(?P=set)->len\s*=\s*(\d+)\s*;', ta),
               "the default trim set")
-    ts = _cstr(m.group(1))
-    if len(ts) < int(m.group(2)):
+    ts = _cstr(m.group(2))
+    if len(ts) < int(m.group(3)):
         raise ExtractError("C17: default trim set shorter than its length")
-    d["trimSet"] = ts[:int(m.group(2))]
+    d["trimSet"] = ts[:int(m.group(3))]
     # ascii case conversion
     lo = core_fn_body(string, "cfun_string_asciilower")
-    m = _need(re.search(r"if\s*\(\s*c\s*>=\s*(\d+)\s*&&\s*c\s*<=\s*(\d+)\s*\)\s*\{\s*buf\[i\]\s*=\s*c\s*\+\s*(\d+)\s*;", lo), "ascii-lower loop")
-    d["lowerFrom"], d["lowerTo"], d["lowerAdd"] = map(int, m.groups())
+    m = _need(re.search(r"if\s*\(\s*(?P<c>\w+)\s*>=\s*(\d+)\s*&&\s*(?P=c)\s*<=\s*(\d+)\s*\)\s*\{\s*\w+\[\w+\]\s*=\s*(?P=c)\s*\+\s*(\d+)\s*;", lo), "ascii-lower loop")
+    d["lowerFrom"], d["lowerTo"], d["lowerAdd"] = map(int, m.groups()[1:])
     up = core_fn_body(string, "cfun_string_asciiupper")
-    m = _need(re.search(r"if\s*\(\s*c\s*>=\s*(\d+)\s*&&\s*c\s*<=\s*(\d+)\s*\)\s*\{\s*buf\[i\]\s*=\s*c\s*-\s*(\d+)\s*;", up), "ascii-upper loop")
-    d["upperFrom"], d["upperTo"], d["upperSub"] = map(int, m.groups())
+    m = _need(re.search(r"if\s*\(\s*(?P<c>\w+)\s*>=\s*(\d+)\s*&&\s*(?P=c)\s*<=\s*(\d+)\s*\)\s*\{\s*\w+\[\w+\]\s*=\s*(?P=c)\s*-\s*(\d+)\s*;", up), "ascii-upper loop")
+    d["upperFrom"], d["upperTo"], d["upperSub"] = map(int, m.groups()[1:])
     # self-alias guards in buffer.c
     # two accepted shapes of the guard: growing with janet_buffer_ensure(count + len) (pinned tree) or with
     # janet_buffer_extra(len) (which checks count + len in 64 bits); both functions must use the same one
-    pre_ensure = r"janet_buffer_ensure\s*\(\s*buffer\s*,\s*buffer->count\s*\+\s*view\.len\s*,\s*(\d+)\s*\)"
-    pre_extra = r"janet_buffer_extra\s*\(\s*buffer\s*,\s*view\.len\s*\)"
+    pre_ensure = r"janet_buffer_ensure\s*\(\s*(?P=b)\s*,\s*(?P=b)->count\s*\+\s*(?P=v)\.len\s*,\s*(\d+)\s*\)"
+    pre_extra = r"janet_buffer_extra\s*\(\s*(?P=b)\s*,\s*(?P=v)\.len\s*\)"
 
     def guard_re(pre):
-        return (r"if\s*\(\s*view\.bytes\s*==\s*buffer->data\s*\)\s*\{\s*" + pre + r"\s*;"
-                r"\s*view\.bytes\s*=\s*buffer->data\s*;\s*\}\s*janet_buffer_push_bytes\s*\(\s*buffer\s*,\s*view\.bytes\s*,\s*view\.len\s*\)")
+        return (r"if\s*\(\s*(?P<v>\w+)\.bytes\s*==\s*(?P<b>\w+)->data\s*\)\s*\{\s*" + pre + r"\s*;"
+                r"\s*(?P=v)\.bytes\s*=\s*(?P=b)->data\s*;\s*\}\s*janet_buffer_push_bytes\s*\(\s*(?P=b)\s*,\s*(?P=v)\.bytes\s*,\s*(?P=v)\.len\s*\)")
     chars, impl = core_fn_body(buffer, "cfun_buffer_chars"), func_body(buffer, "buffer_push_impl")
     via_ensure = bool(re.search(guard_re(pre_ensure), chars) and re.search(guard_re(pre_ensure), impl))
     via_extra = bool(re.search(guard_re(pre_extra), chars) and re.search(guard_re(pre_extra), impl))
     d["pushSelfGuard"] = via_ensure or via_extra
     d["pushSelfViaExtra"] = via_extra
     bl = core_fn_body(buffer, "cfun_buffer_blit")
-    d["blitSelfGuard"] = bool(re.search(r"int\s+same_buf\s*=\s*src\.bytes\s*==\s*dest->data\s*;", bl)
-                              and re.search(r"if\s*\(\s*same_buf\s*\)\s*\{\s*src\.bytes\s*=\s*dest->data\s*;\s*memmove\s*\(\s*dest->data\s*\+\s*offset_dest\s*,\s*src\.bytes\s*\+\s*offset_src\s*,\s*length_src\s*\)", bl))
+    d["blitSelfGuard"] = bool(re.search(
+        r"int\s+(?P<sb>\w+)\s*=\s*(?P<s>\w+)\.bytes\s*==\s*(?P<d>\w+)->data\s*;"
+        r".*?if\s*\(\s*(?P=sb)\s*\)\s*\{\s*(?P=s)\.bytes\s*=\s*(?P=d)->data\s*;\s*memmove\s*\(\s*(?P=d)->data\s*\+\s*\w+\s*,\s*(?P=s)\.bytes\s*\+\s*\w+\s*,\s*\w+\s*\)",
+        bl, re.S))
     pb = func_body(buffer, "janet_buffer_push_bytes")
-    d["pushExtraBeforeCopy"] = bool(re.search(r"janet_buffer_extra\s*\(\s*buffer\s*,\s*length\s*\)\s*;\s*memcpy\s*\(\s*buffer->data\s*\+\s*buffer->count\s*,\s*string\s*,\s*length\s*\)\s*;\s*buffer->count\s*\+=\s*length\s*;", pb))
+    pbp = [re.escape(x) for x in _param_names(buffer, "janet_buffer_push_bytes")]      # (buffer, string, length)
+    if len(pbp) != 3:
+        raise ExtractError("C17: janet_buffer_push_bytes no longer has (buffer, string, length) parameters")
+    d["pushExtraBeforeCopy"] = bool(re.search(
+        r"janet_buffer_extra\s*\(\s*%(b)s\s*,\s*%(l)s\s*\)\s*;\s*memcpy\s*\(\s*%(b)s->data\s*\+\s*%(b)s->count\s*,\s*%(s)s\s*,\s*%(l)s\s*\)\s*;"
+        r"\s*%(b)s->count\s*\+=\s*%(l)s\s*;" % {"b": pbp[0], "s": pbp[1], "l": pbp[2]}, pb))
     if not d["pushExtraBeforeCopy"]:
         raise ExtractError("C17: janet_buffer_push_bytes no longer has the shape extra / memcpy / count += length")
     # range: is the element count still guarded by an aborting assertion, or corrected by the bump loops?
     corelib = strip_comments(read(tree, "src/core/corelib.c"))
     rg = core_fn_body(corelib, "janet_core_range")
-    _need(re.search(r"count\s*=\s*\(\s*step\s*>\s*0\s*\)\s*\?\s*\(\s*stop\s*-\s*start\s*\)\s*/\s*step\s*:\s*\(\s*\(\s*step\s*<\s*0\s*\)\s*\?\s*\(\s*stop\s*-\s*start\s*\)\s*/\s*step\s*:\s*0\s*\)\s*;", rg),
-          "the element count expression of range")
-    _need(re.search(r"int_count\s*=\s*\(int32_t\)\s*ceil\s*\(\s*count\s*\)\s*;", rg), "ceil(count) in range")
-    d["rangePostAssert"] = bool(re.search(r"janet_assert\s*\(\s*start\s*\+\s*int_count\s*\*\s*step", rg))
-    d["rangeBump"] = bool(re.search(r"while\s*\(\s*int_count\s*<\s*INT32_MAX\s*&&\s*start\s*\+\s*int_count\s*\*\s*step\s*<\s*stop\s*\)\s*int_count\+\+\s*;", rg)
-                          and re.search(r"while\s*\(\s*int_count\s*<\s*INT32_MAX\s*&&\s*start\s*\+\s*int_count\s*\*\s*step\s*>\s*stop\s*\)\s*int_count\+\+\s*;", rg))
+    mc = _need(re.search(r"(?P<cnt>\w+)\s*=\s*\(\s*(?P<step>\w+)\s*>\s*0\s*\)\s*\?\s*\(\s*(?P<stop>\w+)\s*-\s*(?P<start>\w+)\s*\)\s*/\s*(?P=step)\s*:"
+                         r"\s*\(\s*\(\s*(?P=step)\s*<\s*0\s*\)\s*\?\s*\(\s*(?P=stop)\s*-\s*(?P=start)\s*\)\s*/\s*(?P=step)\s*:\s*0\s*\)\s*;", rg),
+               "the element count expression of range")
+    nm = {k: re.escape(mc.group(k)) for k in ("cnt", "step", "stop", "start")}
+    mi = _need(re.search(r"(?P<ic>\w+)\s*=\s*\(int32_t\)\s*ceil\s*\(\s*%(cnt)s\s*\)\s*;" % nm, rg), "ceil(count) in range")
+    nm["ic"] = re.escape(mi.group("ic"))
+    d["rangePostAssert"] = bool(re.search(r"janet_assert\s*\(\s*%(start)s\s*\+\s*%(ic)s\s*\*\s*%(step)s" % nm, rg))
+    d["rangeBump"] = bool(re.search(r"while\s*\(\s*%(ic)s\s*<\s*INT32_MAX\s*&&\s*%(start)s\s*\+\s*%(ic)s\s*\*\s*%(step)s\s*<\s*%(stop)s\s*\)\s*%(ic)s\+\+\s*;" % nm, rg)
+                          and re.search(r"while\s*\(\s*%(ic)s\s*<\s*INT32_MAX\s*&&\s*%(start)s\s*\+\s*%(ic)s\s*\*\s*%(step)s\s*>\s*%(stop)s\s*\)\s*%(ic)s\+\+\s*;" % nm, rg))
     return d
 
 
